@@ -277,7 +277,7 @@ impl Cx {
             St::L(l) => l.len() > 100,
             St::M(m) => m.len() > 100,
         };
-        let req = stress_request(s, true, if big { 30 } else { 400 });
+        let req = stress_request(s, true, if big { 30 } else { 150 });
         let ans = match self.arc.request(&req, WATCHDOG) {
             Reply::Ok(a) => a,
             Reply::Timeout => {
